@@ -97,9 +97,16 @@ def e2e_cases(prop, tier, seed):
     return cases
 
 
-def e2e_canon(rec):
+def _e2e_projector():
+    def proj(i, rec):
+        return e2e_canon(rec)
+    proj.for_case = lambda case: (lambda i, rec, n=data_words(case): e2e_canon(rec, n))
+    return proj
+
+
+def e2e_canon(rec, names=None):
     """the e2e driver cannot know rc / fired / timer counts: compare what it can see"""
-    cr = canon_record(rec)
+    cr = canon_record(rec, names)
     if cr[0] == "out":
         # several timers due in one `elapse`: libevent's heap is keyed by a coarse clock, equal
         # expiries pop in heap order; the model fires in table order — compare as multisets
@@ -124,7 +131,7 @@ def extra_runs(prop, tier, seed, wd):
         return [{"name": "e2e (real program)", "error": "the real program does not build: " + log[-1500:]}]
     return [{"name": "e2e: real main.c/module.c, dlopen'ed modules, pipes, libevent timers, SIGUSR1",
              "cmd": e2e_cmd(bindir, wd), "cases": e2e_cases(prop, tier, seed),
-             "projector": (lambda i, rec: e2e_canon(rec)), "workers": 12}]
+             "projector": _e2e_projector(), "workers": 12}]
 
 
 def harness_cmd(path, prop):
@@ -1543,7 +1550,46 @@ def _probe_view(recs):
 TIMING = re.compile(rb"\(in [^)]* sec\)")
 
 
-def canon_out(hexs):
+WORD = re.compile(rb'[^\s;{}"]+')
+TYPE_NAMES = {b"login", b"login-ipr", b"dronecheck", b"combined"}
+
+
+def data_words(case):
+    """every word of the configuration texts a case loads (service, rule and class names, values):
+    what a statistics or configuration report may legitimately echo, as opposed to its own wording"""
+    words = set(TYPE_NAMES)
+    for l in case.lines[1:]:
+        f = l.split(" ")
+        if f[0] in ("conf", "reload") and len(f) > 1:
+            try:
+                words.update(WORD.findall(unhx(f[1])))
+            except Exception:
+                pass
+    return words
+
+
+def neutral_global(l, names):
+    """a global report line without its wording: letter, module, and the tokens that are data -
+    numbers and configured names.  No property speaks about the wording of operator notices,
+    statistics or configuration listings (C10 reads one figure out of `S iauth`, which the judge
+    does on the unprojected line; C09 judges well-formedness on the unprojected line too)."""
+    if l.startswith(b"> "):
+        return b">"
+    if len(l) > 2 and l[:1] in (b"S", b"A") and l[1:2] == b" ":
+        toks = l.split(b" ")
+        keep = toks[:2]
+        for t in toks[2:]:
+            t = t.lstrip(b":")
+            if not t:
+                continue
+            bare = t[1:] if t[:1] == b"-" else t
+            if any(48 <= c <= 57 for c in t) or bare in names:
+                keep.append(t)
+        return b" ".join(keep)
+    return l
+
+
+def canon_out(hexs, names=None):
     """decode an `out` payload into canonical lines"""
     data = unhx(hexs)
     lines = data.split(b"\n")
@@ -1551,10 +1597,13 @@ def canon_out(hexs):
         lines.pop()
     out = []
     for l in lines:
-        if l.startswith(b"S class :") and b" clients already had classes" in l:
+        if l.startswith(b"S class :") and b"(in " in l:
             l = TIMING.sub(b"(in T sec)", l)
         out.append(l)
-    return sort_slot_runs(out)
+    out = sort_slot_runs(out)
+    if names is not None:
+        out = [neutral_global(l, names) for l in out]
+    return out
 
 
 def sort_slot_runs(out):
@@ -1585,14 +1634,14 @@ def _slot_kind(l):
     return None
 
 
-def canon_record(rec):
+def canon_record(rec, names=None):
     f = rec.split(" ")
     if f[0] == "out":
-        return ("out", tuple(canon_out(f[1] if len(f) > 1 else "=")), tuple(f[2:]))
+        return ("out", tuple(canon_out(f[1] if len(f) > 1 else "=", names)), tuple(f[2:]))
     if f[0] == "rc" and len(f) >= 4:
-        return ("rc", "0" if f[1] == "0" else "nz", tuple(canon_out(f[3])))
+        return ("rc", "0" if f[1] == "0" else "nz", tuple(canon_out(f[3], names)))
     if f[0] == "exit":
-        return ("exit", f[1], f[2], tuple(canon_out(f[4] if len(f) > 4 else "=")))
+        return ("exit", f[1], f[2], tuple(canon_out(f[4] if len(f) > 4 else "=", names)))
     if f[0] == "fault":
         return ("fault",)
     if f[0] == "log":
@@ -1602,6 +1651,12 @@ def canon_record(rec):
 
 def projector(prop):
     return lambda i, rec: canon_record(rec)
+
+
+def case_projector(prop, case):
+    """model/implementation comparison: global report lines without their wording"""
+    names = data_words(case)
+    return lambda i, rec: canon_record(rec, names)
 
 
 def spec_name(prop):
